@@ -34,12 +34,13 @@ class HarnessError(Exception):
 
 class Handle:
     __slots__ = ("solver", "ref", "cls", "kw", "lineage", "alive", "mode", "tainted", "origin", "parent", "added",
-                 "twin")
+                 "twin", "pins")
 
     def __init__(self, solver, ref, cls, kw, lineage, mode, origin, parent=None):
         self.parent = parent  # index of the handle this one was branched from (ancestry for merge)
         self.added = []  # AST hashes of constraints the user added to this handle or its ancestors (C16)
         self.twin = None
+        self.pins = {}  # var -> value, from user-added constraints of the literal form var == const / b / Not(b)
         self.solver = solver
         self.ref = ref
         self.cls = cls
@@ -357,6 +358,7 @@ class Machine:
                 self.unexpected(h, op, val)
             nh = Handle(val, h.ref.copy(), h.cls, h.kw, list(h.lineage), h.mode, "branch", parent=pi)
         nh.added = list(h.added)
+        nh.pins = dict(h.pins)
         self.handles.append(nh)
         return ["h", len(self.handles) - 1]
 
@@ -384,6 +386,7 @@ class Machine:
             return ["replaced"]
         nh = Handle(s2, h.ref.copy(), h.cls, h.kw, list(h.lineage), h.mode, "pickle", parent=h.parent)
         nh.added = list(h.added)
+        nh.pins = dict(h.pins)
         self.handles.append(nh)
         return ["h", len(self.handles) - 1]
 
@@ -405,15 +408,52 @@ class Machine:
         return ["ok"]
 
     # ------------------------------------------------------------------ ops: mutation
+    def _note_pin(self, h, c):
+        if c[0] == "eq":
+            for a, b in ((c[1], c[2]), (c[2], c[1])):
+                if a[0] == "var" and b[0] == "const":
+                    h.pins.setdefault(a[1], b[1] & ((1 << b[2]) - 1))
+        elif c[0] == "var":
+            h.pins.setdefault(c[1], 1)
+        elif c[0] == "bnot" and c[1][0] == "var":
+            h.pins.setdefault(c[1][1], 0)
+
+    def _note_pin_ast(self, h, a):
+        """same, on the expression claripy built (it may have simplified `0 ^ b == 0` to `b == 0`)"""
+        op = getattr(a, "op", None)
+        if op == "__eq__":
+            for x, y in (a.args, a.args[::-1]):
+                if getattr(x, "op", None) == "BVS" and getattr(y, "op", None) == "BVV" and x.args[0] in self.variables:
+                    h.pins.setdefault(x.args[0], int(y.concrete_value))
+        elif op == "BoolS" and a.args[0] in self.variables:
+            h.pins.setdefault(a.args[0], 1)
+        elif op == "Not" and getattr(a.args[0], "op", None) == "BoolS" and a.args[0].args[0] in self.variables:
+            h.pins.setdefault(a.args[0].args[0], 0)
+
+    def pinned_value(self, h, e):
+        """value of e if all its variables are pinned by literal `var == const` constraints added to a replacement
+        frontend (which by design answers such queries without consulting the solver), else None"""
+        if h.cls not in ("SolverReplacement", "SolverReplacementVSA") or not isinstance(e, list):
+            return None
+        vs = S.spec_vars(e)
+        if not all(v in h.pins for v in vs):
+            return None
+        f = S.compile_spec(e, self.variables, self.order)
+        return int(f(*[h.pins.get(n, 0) for n in self.order]))
+
     def op_add(self, op):
         h = self.H(op)
         self.used_specs = list(op["cs"]) + h.lineage
+        for c in op["cs"]:
+            self._note_pin(h, c)
         if self.dry:
             for c in op["cs"]:
                 h.ref.add(c)
                 h.lineage.append(c)
             return ["added"]
         cs = self.asts(op["cs"])
+        for a in cs:
+            self._note_pin_ast(h, a)
         arg = cs if (len(cs) != 1 or op.get("as_list", True)) else cs[0]
         res = self.call(h.solver.add, arg)
         st, val = res
@@ -508,6 +548,8 @@ class Machine:
         vals = [int(v) for v in val]
         if sat is False and self._nonsymbolic(a):
             return ["concrete", vals]
+        if sat is False and vals == [self.pinned_value(h, e)]:
+            return ["pinned", vals]
         if len(vals) > n:
             self.bad("too-many-results", h, op, e=e, n=n, got=vals)
         if len(set(vals)) != len(vals):
@@ -546,6 +588,8 @@ class Machine:
         tups = [tuple(int(x) for x in t) for t in val]
         if sat is False and all(self._nonsymbolic(a) for a in as_):
             return ["concrete", tups]
+        if sat is False and tups == [tuple(self.pinned_value(h, e) for e in es)]:
+            return ["pinned", tups]
         if len(tups) > n:
             self.bad("too-many-results", h, op, es=es, n=n, got=tups)
         if len(set(tups)) != len(tups):
@@ -591,6 +635,9 @@ class Machine:
         if opt is None:
             if self._nonsymbolic(a):
                 return ["concrete", r]
+            pv = self.pinned_value(h, e)
+            if pv is not None and r % (1 << w) == pv:
+                return ["pinned", r]
             if mode == "contain":
                 return ["approx-on-unsat", r]
             self.bad("answer-on-unsat", h, op, e=e, signed=signed, got=r, extra=extras)
@@ -640,6 +687,11 @@ class Machine:
         got = bool(val)
         if sat is False and self._nonsymbolic(a) and (not isinstance(v, list) or self._nonsymbolic(va)):
             return ["concrete", got]
+        if sat is False:
+            pe = self.pinned_value(h, e)
+            pv = v if not isinstance(v, list) else (int(va.concrete_value) if self._nonsymbolic(va) else self.pinned_value(h, v))
+            if pe is not None and pv is not None and got == (pe == pv):
+                return ["pinned", got]
         if mode == "exact":
             if got != exp:
                 self.bad("wrong-solution", h, op, e=e, v=v, got=got, expected=exp, extra=extras)
@@ -835,7 +887,7 @@ class Machine:
                 pv = [i for i, n in enumerate(self.order) if n in p.variables]
                 proj = {tuple(m[i] for i in pv) for m in h.ref.M}
                 M = [m for m in self.ref0().universe if tuple(m[i] for i in pv) in proj]
-                nh = Handle(p, self.ref0().with_models(M), h.cls, h.kw, list(h.lineage), h.mode, "split")
+                nh = Handle(p, self.ref0().with_models(M), type(p).__name__, h.kw, list(h.lineage), h.mode, "split")
                 self.handles.append(nh)
                 out.append(len(self.handles) - 1)
         return ["parts", len(parts), out]
